@@ -48,6 +48,7 @@ struct %(FUN)s { _Bool set; };
 #define %(VSIT)s__op_inc__0(it) ((it)->idx = (it)->idx + 1, (it))
 #define %(VSIT)s__ctor__normal_iterator_%(SP)s_%(VS)s_ref(d, s) (*(d) = *(s))
 #define ext_op_ne__normal_iterator_%(SP)s_%(VS)s_ref_normal_iterator_%(SP)s_%(VS)s_ref(a, b) ((a)->idx != (b)->idx)
+#define ext_op_eq__normal_iterator_%(SP)s_%(VS)s_ref_normal_iterator_%(SP)s_%(VS)s_ref(a, b) ((a)->idx == (b)->idx)
 #define %(VV)s__ctor(v) ((v)->size = 0, (v)->has_f = 0, (v)->fpos = 0)
 #define %(VV)s__dtor(v) ((void)0)
 #define %(VV)s__empty__0(v) ((v)->size == 0)
@@ -55,6 +56,7 @@ struct %(FUN)s { _Bool set; };
 #define %(VV)s__end__0(it, vv) ((it)->v = (vv), (it)->idx = (vv)->size)
 #define %(VV)s__emplace_back__1 vf_vv_push
 #define ext_op_ne__normal_iterator_void_%(VV)s_ref_normal_iterator_void_%(VV)s_ref(a, b) ((a)->idx != (b)->idx)
+#define ext_op_eq__normal_iterator_void_%(VV)s_ref_normal_iterator_void_%(VV)s_ref(a, b) ((a)->idx == (b)->idx)
 #define ext_find__%(VVIT)s_%(VVIT)s_void_ref vf_vv_find
 #define ext_remove_if__%(VSIT)s_%(VSIT)s_%(DDL)s__destroyObjects__void__lambda0 vf_remove_if_l
 #define ext_remove_if__%(VSIT)s_%(VSIT)s_%(DDS)s__destroyObjects__void__lambda0 vf_remove_if_s
